@@ -45,8 +45,10 @@ SRC_NOTE = ('CPython is the oracle; programs come from a seeded grammar-based ge
 claim('C07', 'Bounded only (exploration): compiler correctness of source -> CFG -> restructured CFG -> source is not decidable by any contract within reach; the property-level contract '
       '(same result or exception type and same sequence of external calls, or NotImplementedError) is evaluated on every enumerated decision path of every generated program.',
       SRC_NOTE, 'property-level contract evaluated by differential execution against CPython over enumerated decision paths (bounded stand-in; no proof part)', '5.C07', category='exploration')
-claim('C08', 'Bounded only (exploration): a CFG interpreter written from the property statement is compared with CPython on every enumerated decision path of every generated program, '
-      'with operands that log and raise.', SRC_NOTE, 'property-level contract evaluated by differential execution (CFG interpreter vs CPython) over enumerated decision paths', '5.C08',
+claim('C08', 'Bounded at property level (exploration): a CFG interpreter written from the property statement is compared with CPython on every enumerated decision path of every generated program, '
+      'with operands that log and raise. Proved leaf facts it rests on (pyvc/z3, ast nodes as opaque objects with an uninterpreted isinstance relation): the sealing of a writable block - '
+      'WritableASTBlock.set_jump_targets / is_instruction / is_return / is_break / is_continue / seal_outside_loop / seal_inside_loop (continue -> loop head, break -> loop exit, return keeps its '
+      'targets, anything else falls through to the given index).', SRC_NOTE + '; the recursive handlers of AST2SCFGTransformer and the pruning passes of ASTCFG (objects mutated through aliases in a dict) are outside the verifier\'s subset', 'property-level contract evaluated by differential execution (CFG interpreter vs CPython) over enumerated decision paths', '5.C08',
       category='exploration')
 claim('C09', 'Mixed, mostly proved: utils (classification lookups, offset arithmetic), FlowInfo._add_jump_inst, FlowInfo.from_bytecode, FlowInfo.build_basicblocks '
       '(contiguous ranges in offset order, names in offset order, fall-through / jump / return successors, no KeyError), PythonBytecodeBlock.get_instructions '
